@@ -44,6 +44,9 @@ package fsutil
 //@ lemma pathless_asym C12 C09: forall a string, b string :: specPathLess(a, b) ==> !specPathLess(b, a)
 //@ lemma pathless_trans C12 C09: forall a string, b string, c string :: specPathLess(a, b) && specPathLess(b, c) ==> specPathLess(a, c)
 //@ lemma pathless_neq C12: forall a string, b string :: specPathLess(a, b) ==> a != b
+// the same with a trigger that creates no new terms
+//@ lemma pathless_asym_t C12: forall a string, b string :: {specPathLess(a, b), specPathLess(b, a)} specPathLess(a, b) ==> !specPathLess(b, a)
+//@ lemma empty_least C12: forall a string :: {specPathLess("", a)} len(a) > 0 ==> specPathLess("", a)
 // totality is not provable as a bare lemma over the first-difference definition (finding
 // the least differing index needs induction); it is a corollary of the verified program:
 // ComparePath terminates and its three postconditions are exhaustive - the loop is the induction
@@ -169,20 +172,43 @@ package fsutil
 // stack), its base name is bytewise above the last child accepted in that
 // directory, the stack is cut back to that entry, and a directory that is not
 // being deleted is pushed.
+//@ pred specVStack(pd []parent) bool = pd == nil || (len(pd) >= 1 && pd[0].dir == "" && (forall a int, b int :: {pd[a].dir, pd[b].dir} 0 <= a && a < b && b < len(pd) ==> specPathLess(pd[a].dir, pd[b].dir)))
+//@ pred specVLexical(p string) bool = p == filepath.Clean(p) && !filepath.IsAbs(p) && p != "." && p != ".." && !strings.HasPrefix(p, "../") && filepath.Dir(p) != ".."
+
+// assumed facts about path/filepath on clean relative paths (audited against the real
+// functions in the thorough tier): a path is its directory joined with its base name,
+// and lies strictly inside its directory
+//@ axiom clean_join_dir_base: forall p string :: p == filepath.Clean(p) && !filepath.IsAbs(p) ==> filepath.Join(specVDir(p), filepath.Base(p)) == p
+//@ axiom clean_inside_dir: forall p string :: p == filepath.Clean(p) && !filepath.IsAbs(p) && p != "." && specVDir(p) != "" ==> specInside(p, specVDir(p))
+//@ axiom clean_nonempty: forall p string :: p == filepath.Clean(p) ==> len(p) > 0
+
 //@ func Validator.HandleChange
 //@   property C12 C03
+//@   opaque specPathLess specInside
+//@   lemmas clean_join_dir_base clean_inside_dir clean_nonempty pathless_trans inside_less pathless_asym_t pathless_irrefl empty_least
 //@   requires v != nil
-//@   requires wf: v.parentDirs == nil || (len(v.parentDirs) >= 1 && v.parentDirs[0].dir == "")
+//@   requires wf: specVStack(v.parentDirs)
 //@   modifies v.parentDirs, v.parentDirs[*]
 //@   ensures passerr: err != nil ==> retErr == err
-//@   ensures lexical: err == nil && retErr == nil ==> p == filepath.Clean(p) && !filepath.IsAbs(p) && p != "." && p != ".." && !strings.HasPrefix(p, "../") && filepath.Dir(p) != ".."
+//@   ensures lexical: err == nil && retErr == nil ==> specVLexical(p)
 //@   ensures wf: err == nil ==> v.parentDirs != nil && len(v.parentDirs) >= 1 && v.parentDirs[0].dir == ""
+//@   ensures wf_sorted_rej: err == nil && retErr != nil ==> forall a int, b int :: 0 <= a && a < b && b < len(v.parentDirs) ==> specPathLess(v.parentDirs[a].dir, v.parentDirs[b].dir)
+//@   ensures wf_sorted_nopush: err == nil && retErr == nil && !specVPushed(kind, fi) ==> forall a int, b int :: 0 <= a && a < b && b < len(v.parentDirs) ==> specPathLess(v.parentDirs[a].dir, v.parentDirs[b].dir)
+//@   ensures wf_sorted_push_old: err == nil && retErr == nil && specVPushed(kind, fi) ==> forall a int, b int :: 0 <= a && a < b && b < len(v.parentDirs) - 1 ==> specPathLess(v.parentDirs[a].dir, v.parentDirs[b].dir)
+//@   ensures wf_sorted_push_top{clean_inside_dir,clean_nonempty,inside_less,empty_least}: err == nil && retErr == nil && specVPushed(kind, fi) ==> specPathLess(v.parentDirs[len(v.parentDirs) - 2].dir, p)
+//@   ensures wf_sorted_push_new{clean_inside_dir,clean_nonempty,pathless_trans,inside_less,empty_least}: err == nil && retErr == nil && specVPushed(kind, fi) ==> forall a int :: 0 <= a && a < len(v.parentDirs) - 1 ==> specPathLess(v.parentDirs[len(v.parentDirs) - 2].dir, p) && specPathLess(v.parentDirs[a].dir, p)
+//@   ensures wf_sorted_push{clean_join_dir_base,clean_inside_dir,clean_nonempty,pathless_trans,inside_less,empty_least}: err == nil && retErr == nil && specVPushed(kind, fi) ==> forall a int, b int :: 0 <= a && a < b && b < len(v.parentDirs) ==> specPathLess(v.parentDirs[a].dir, v.parentDirs[b].dir)
 //@   ensures parent: forall i int :: err == nil && retErr == nil && old(v.parentDirs) != nil && i == len(v.parentDirs) - 1 - ite(specVPushed(kind, fi), 1, 0) ==> 0 <= i && i < old(len(v.parentDirs)) && old(v.parentDirs[i].dir) == specVDir(p) && old(v.parentDirs[i].last) < filepath.Base(p)
 //@   ensures first: err == nil && retErr == nil && old(v.parentDirs) == nil ==> specVDir(p) == "" && "" < filepath.Base(p) && len(v.parentDirs) == 1 + ite(specVPushed(kind, fi), 1, 0)
 //@   ensures last: err == nil && retErr == nil ==> v.parentDirs[len(v.parentDirs) - 1 - ite(specVPushed(kind, fi), 1, 0)].last == filepath.Base(p) && v.parentDirs[len(v.parentDirs) - 1 - ite(specVPushed(kind, fi), 1, 0)].dir == specVDir(p)
-//@   ensures push: err == nil && retErr == nil && specVPushed(kind, fi) ==> v.parentDirs[len(v.parentDirs) - 1].dir == filepath.Join(specVDir(p), filepath.Base(p)) && v.parentDirs[len(v.parentDirs) - 1].last == ""
+//@   ensures push{clean_join_dir_base}: err == nil && retErr == nil && specVPushed(kind, fi) ==> v.parentDirs[len(v.parentDirs) - 1].dir == p && v.parentDirs[len(v.parentDirs) - 1].last == ""
 //@   posteffect OrderOK(p) when retErr == nil
 //@   ensures keep: err == nil && retErr == nil && old(v.parentDirs) != nil ==> forall k int :: 0 <= k && k < len(v.parentDirs) - 1 - ite(specVPushed(kind, fi), 1, 0) ==> v.parentDirs[k].dir == old(v.parentDirs[k].dir) && v.parentDirs[k].last == old(v.parentDirs[k].last)
+// the other direction: a lexically contained path whose directory is open and whose base
+// name is above the last child accepted there is accepted (the stack is ascending, so the
+// binary search finds exactly that entry)
+//@   ensures complete{pathless_trans,pathless_asym_t,pathless_irrefl}: forall k int :: err == nil && specVLexical(p) && old(v.parentDirs) != nil && 0 <= k && k < old(len(v.parentDirs)) && old(v.parentDirs[k].dir) == specVDir(p) && old(v.parentDirs[k].last) < filepath.Base(p) ==> retErr == nil
+//@   ensures complete_first: err == nil && specVLexical(p) && old(v.parentDirs) == nil && specVDir(p) == "" && "" < filepath.Base(p) ==> retErr == nil
 
 // ---------------------------------------------------------------------------
 // send.go
@@ -339,12 +365,12 @@ package fsutil
 //@ func receiver.run$2
 //@   property C07 C19 C03
 //@   requires r != nil && r.files != nil && r.pipes != nil && w != nil && metadataBuffer != nil && metadataParents != nil
-//@   requires r.orderValidator.parentDirs == nil || (len(r.orderValidator.parentDirs) >= 1 && r.orderValidator.parentDirs[0].dir == "")
+//@   requires specVStack(r.orderValidator.parentDirs)
 //@   modifies heap
 //@   effects RecvMsg StatRecv RecvDone MuLock MuUnlock Progress ChanSend PipeWrite PipeClose OrderOK LinkOK
 //@   loop 0 invariant id_counter: i == uint32(cnt(StatRecv) - old(cnt(StatRecv)))
 //@   loop 0 invariant maps: r.files == old(r.files) && r.pipes == old(r.pipes)
-//@   loop 0 invariant vwf: r.orderValidator.parentDirs == nil || (len(r.orderValidator.parentDirs) >= 1 && r.orderValidator.parentDirs[0].dir == "")
+//@   loop 0 invariant vwf: specVStack(r.orderValidator.parentDirs)
 //@   ensures eof: result == nil ==> arg(RecvDone, 0) == io.EOF
 //@   at call Validator.HandleChange: id_is_stat_position: !metaOnly && specCanRequest(p.Stat.Mode) ==> haskey(r.files, path) && r.files[path] == uint32(cnt(StatRecv) - old(cnt(StatRecv)) - 1)
 //@   at call dynamicWalker.update: validated_before_forward: arg1 != nil ==> when(OrderOK) > when(RecvMsg) && when(LinkOK) > when(RecvMsg)
